@@ -1,4 +1,5 @@
 import Mathlib.MeasureTheory.Measure.Prod
+import Mathlib.MeasureTheory.Integral.Bochner.Basic
 /-! # Two-stage Gibbs invariance for densities (abstract measure theory)
 
 `(X, μ)`, `(Y, ν)` s-finite measure spaces, `j : X → Y → ℝ≥0∞` a jointly measurable "joint
@@ -13,7 +14,11 @@ Everything is stated for `ℝ≥0∞`-valued functions and `∫⁻`, for every m
   `j x y = mX x * c1 x y`, `j x y = mY y * c2 y x` (a.e.), no finiteness needed;
 * `cond_mul_lintegral` — `m * ∫ (k / m) g = ∫ k g` for `m = ∫ k ≠ ⊤`;
 * `gibbs_two_stage` — the conditionals are the quotients `j / mX`, `j / mY`, marginals a.e. finite;
-* `cond_lintegral_eq_one` — the quotient is a probability density where the marginal is in `(0, ⊤)`.
+* `cond_lintegral_eq_one` — the quotient is a probability density where the marginal is in `(0, ⊤)`;
+* `gibbs_two_stage_real` — real-valued densities: the joint `jt ≥ 0` is, in each coordinate, *some*
+  constant multiple of a probability density `p1 x ·` / `p2 y ·`, and its Bochner `y`-integral is
+  `tg x`; then the kernel "draw `y ~ p1 x`, then `x' ~ p2 y`" leaves the measure with density `tg`
+  invariant.  This is the form consumed by `Props/C13.lean`.
 -/
 open MeasureTheory Function
 open scoped ENNReal
@@ -123,5 +128,64 @@ theorem gibbs_two_stage (μ : Measure X) (ν : Measure Y) [SFinite μ] [SFinite 
   · exact (hj.comp measurable_swap).div (hmY.comp measurable_fst)
   · filter_upwards [hX] with x hx using cond_mul_ae ν (j x) (hjx x) hx
   · filter_upwards [hY] with y hy using cond_mul_ae μ (fun x => j x y) (hjy y) hy
+
+/-- a nonnegative real function that is a constant multiple `Z` of a probability density `p`:
+its `ℝ≥0∞` integral is `|Z|` and it factorises as `|Z| * p` in `ℝ≥0∞` -/
+theorem factor_of_real {A : Type*} [MeasurableSpace A] (ρ : Measure A) (k p : A → ℝ)
+    (hk0 : ∀ᵐ a ∂ρ, 0 ≤ k a) (hp0 : ∀ᵐ a ∂ρ, 0 ≤ p a)
+    (hp1 : ∫⁻ a, ENNReal.ofReal (p a) ∂ρ = 1) (Z : ℝ) (hZ : ∀ᵐ a ∂ρ, k a = Z * p a) :
+    ∫⁻ a, ENNReal.ofReal (k a) ∂ρ = ENNReal.ofReal |Z| ∧
+      ∀ᵐ a ∂ρ, ENNReal.ofReal (k a) = ENNReal.ofReal |Z| * ENNReal.ofReal (p a) := by
+  have h : ∀ᵐ a ∂ρ, ENNReal.ofReal (k a) = ENNReal.ofReal |Z| * ENNReal.ofReal (p a) := by
+    filter_upwards [hk0, hp0, hZ] with a h1 h2 h3
+    rw [← ENNReal.ofReal_mul (abs_nonneg Z)]
+    congr 1
+    rw [← abs_of_nonneg h1, h3, abs_mul, abs_of_nonneg h2]
+  refine ⟨?_, h⟩
+  rw [lintegral_congr_ae h, lintegral_const_mul' _ _ ENNReal.ofReal_ne_top, hp1, mul_one]
+
+/-- **Two-stage Gibbs invariance for real-valued densities.**  `jt : X → Y → ℝ` jointly measurable
+and a.e. nonnegative; for a.e. `x`, `jt x ·` is some constant multiple of the probability density
+`p1 x ·` (w.r.t. `ν`) and `∫ jt x y dν(y) = tg x`; for a.e. `y`, `jt · y` is some constant multiple
+of the probability density `p2 y ·` (w.r.t. `μ`).  Then for every measurable `f`,
+`∫ tg(x) ∫ p1(x,y) ∫ p2(y,x') f(x') dμ(x') dν(y) dμ(x) = ∫ tg(x') f(x') dμ(x')`:
+if `x` has density `tg`, `y ~ p1 x`, `x' ~ p2 y`, then `x'` has density `tg`. -/
+theorem gibbs_two_stage_real (μ : Measure X) (ν : Measure Y) [SFinite μ] [SFinite ν]
+    (jt : X → Y → ℝ) (hjt : Measurable (uncurry jt)) (tg : X → ℝ)
+    (p1 : X → Y → ℝ) (p2 : Y → X → ℝ) (hp1m : ∀ x, Measurable (p1 x))
+    (hp2m : Measurable (uncurry p2))
+    (hjt0 : ∀ᵐ x ∂μ, ∀ᵐ y ∂ν, 0 ≤ jt x y)
+    (h1 : ∀ᵐ x ∂μ, (∀ᵐ y ∂ν, 0 ≤ p1 x y) ∧ ∫⁻ y, ENNReal.ofReal (p1 x y) ∂ν = 1 ∧
+      ∃ Z : ℝ, ∀ᵐ y ∂ν, jt x y = Z * p1 x y)
+    (h2 : ∀ᵐ y ∂ν, (∀ᵐ x ∂μ, 0 ≤ p2 y x) ∧ ∫⁻ x, ENNReal.ofReal (p2 y x) ∂μ = 1 ∧
+      ∃ D : ℝ, ∀ᵐ x ∂μ, jt x y = D * p2 y x)
+    (htg : ∀ᵐ x ∂μ, ∫ y, jt x y ∂ν = tg x)
+    (f : X → ℝ≥0∞) (hf : Measurable f) :
+    ∫⁻ x, ENNReal.ofReal (tg x) * ∫⁻ y, ENNReal.ofReal (p1 x y) *
+        ∫⁻ x', ENNReal.ofReal (p2 y x') * f x' ∂μ ∂ν ∂μ
+      = ∫⁻ x', ENNReal.ofReal (tg x') * f x' ∂μ := by
+  have hjx : ∀ x, Measurable (jt x) := fun x => hjt.comp measurable_prodMk_left
+  have hjt0' : ∀ᵐ y ∂ν, ∀ᵐ x ∂μ, 0 ≤ jt x y :=
+    (Measure.ae_ae_comm (p := fun x y => 0 ≤ jt x y)
+      (measurableSet_le measurable_const hjt)).mp hjt0
+  -- for a.e. x the ℝ≥0∞ marginal is `ofReal (tg x)`
+  have hmX : ∀ᵐ x ∂μ, ENNReal.ofReal (tg x) = ∫⁻ y, ENNReal.ofReal (jt x y) ∂ν := by
+    filter_upwards [hjt0, h1, htg] with x hx0 ⟨hp0, hp1, Z, hZ⟩ hx
+    have hfin : ∫⁻ y, ENNReal.ofReal (jt x y) ∂ν ≠ ⊤ := by
+      rw [(factor_of_real ν (jt x) (p1 x) hx0 hp0 hp1 Z hZ).1]; exact ENNReal.ofReal_ne_top
+    have hint : Integrable (jt x) ν :=
+      (lintegral_ofReal_ne_top_iff_integrable (hjx x).aestronglyMeasurable hx0).mp hfin
+    rw [← hx, ofReal_integral_eq_lintegral_ofReal hint hx0]
+  refine gibbs_two_stage_factorised μ ν (fun x y => ENNReal.ofReal (jt x y))
+    (ENNReal.measurable_ofReal.comp hjt) (fun x => ENNReal.ofReal (tg x))
+    (fun y => ∫⁻ x, ENNReal.ofReal (jt x y) ∂μ) (fun x y => ENNReal.ofReal (p1 x y))
+    (fun y x => ENNReal.ofReal (p2 y x)) (fun x => ENNReal.measurable_ofReal.comp (hp1m x))
+    (ENNReal.measurable_ofReal.comp hp2m) hmX (ae_of_all _ fun _ => rfl) ?_ ?_ f hf
+  · filter_upwards [hjt0, h1, hmX] with x hx0 ⟨hp0, hp1, Z, hZ⟩ hx
+    obtain ⟨hI, hF⟩ := factor_of_real ν (jt x) (p1 x) hx0 hp0 hp1 Z hZ
+    rw [hx, hI]; exact hF
+  · filter_upwards [hjt0', h2] with y hy0 ⟨hp0, hp1, D, hD⟩
+    obtain ⟨hI, hF⟩ := factor_of_real μ (fun x => jt x y) (p2 y) hy0 hp0 hp1 D hD
+    rw [hI]; exact hF
 
 end PhyModel.GibbsTwoStage
